@@ -436,10 +436,15 @@ def run(chk):
                    "" if not bad else "the callee is a method of the API class: it maps its argument to the canonical domain again")
     chk.floor("C10-D10.canonical", ncan, 10, "consumers of canonical coordinates in the API class")
 
+    from rules import conformal
+    ncf = conformal.conformal_rule(chk, db, "C10-D11.conformal")
+    chk.floor("C10-D11.conformal", ncf, 20, "folds of the conformal routines (forward, inverse per precision, weights at and away from zero, per truncation)")
+
     from rules import routing
     nrt = routing.routing_rule(chk, db, "C10-D7.routing")
     chk.floor("C10-D7.routing", nrt, 15, "forwarding calls of the three families")
 
     return ("Static rule discharge: the rule partitions of all dispatchers are compared enumerator by enumerator; the straight-line loop bodies of each family are converted to closed forms in "
             "(x, a, b, alpha, beta) and the identities forward∘inverse = id, Jacobian = d(inverse)/dx, quadrature scale = (d forward/dx)^(1+w), support factor = d forward/dx and the images of "
-            "the canonical end points are discharged with sympy. The conformal (asin) map and Newton convergence / round-off at the boundary are not decided.")
+            "the canonical end points are discharged with sympy. The conformal (asin) routines are folded for truncations 0..5 (C10-D11): forward map = normalised Maclaurin polynomial of asin, "
+            "inverse = Newton on that polynomial with its derivative series, weight factor = its Jacobian. Convergence of the Newton iteration and round-off at the boundary are not decided.")
